@@ -118,7 +118,8 @@ let obs_state ?(want_valid = true) (s : sess) : cstate =
   let a = abs c.cp in
   let want = { n.sg.g_cur with s_full = wrap64 n.sg.g_cur.s_full } in
   if a <> want then
-    fail_spec "state: C++ position %s differs from the position prescribed by the rules %s (full-move number modulo 2^64)" (show_spos a) (show_spos want);
+    fail_spec "state: C++ position %s differs from the position prescribed by the rules %s%s" (show_spos a) (show_spos want)
+      (if want <> n.sg.g_cur then " (full-move number modulo 2^64)" else "");
   if c.chash <> c.ccalc then fail_spec "hash() %s <> calculate_hash() %s" (hex_of_n c.chash) (hex_of_n c.ccalc);
   if want_valid && not c.cvalid then fail_spec "valid() is false on a legal history";
   if not (same_model_state c.cp n.mp) then fail_model "state: C++ raw state differs from the model's";
